@@ -23,7 +23,11 @@
      the former followed, when mutation_rate > 0, by the random-mutation loop
      with random.random() returning the numbers ds (in 64ths);
      apply_random C props = C after mutate(n, v, "random_mutation") for each
-     (n, v) of props in order. *)
+     (n, v) of props in order;
+     a gene name n : Z is name_code s, the integer code of the str s (its
+     code points); valid_name s = every code point is in 0 .. 0x10FFFF;
+     addresses o n = the call o is made with the name n (add_gene: the name of
+     the gene handed in; replicate / express name no single gene). *)
 From Coq Require Import ZArith List Bool.
 From Verif Require Import C20.Model C20.Proofs.
 Import ListNotations.
@@ -296,6 +300,46 @@ Theorem c20_rollback_never_silent :
          g_rollback G n = (add_log G (mkM n cur (m_orig m') RRollback false), false)).
 Proof. exact rollback_never_silent_proof. Qed.
 Print Assumptions c20_rollback_never_silent.
+
+(* ---- 7. names are exact spellings ----------------------------------------- *)
+
+(* The model keeps a gene name as the integer name_code s.  That integer
+   determines the string: names that differ in ANY code point -- trailing or
+   leading white space, letter case, digits, look-alike characters, the empty
+   name -- are different keys, so every theorem of this file, stated for
+   names n : Z, holds for arbitrary strings with Python's str equality. *)
+Theorem c20_name_spellings_distinct :
+  forall s s', valid_name s -> valid_name s' -> name_code s = name_code s' -> s = s'.
+Proof. exact name_code_inj. Qed.
+Print Assumptions c20_name_spellings_distinct.
+
+(* No call made under another name changes the gene stored under n: after
+   ANY calls on the lineage (re-adds that are applied because allow_mutations
+   is on included; any callback) of which those addressed to genome i all
+   carry names other than n, the entry of n in genome i -- value, type,
+   description, required flag, default expression, expression level, or its
+   absence -- is what it was. *)
+Theorem c20_other_names_untouched :
+  forall W ops i G n,
+    nth_error W i = Some G ->
+    (forall o, In o (ops_for i ops) -> addresses o n = false) ->
+    exists G', nth_error (run W ops) i = Some G' /\ lookup (tbl G') n = lookup (tbl G) n.
+Proof. exact other_names_untouched_proof. Qed.
+Print Assumptions c20_other_names_untouched.
+
+(* ... in particular a differently spelled name never reaches the gene: if
+   every named call on genome i spells the name s', the gene named s <> s'
+   keeps its entry and its stored value. *)
+Theorem c20_other_spelling_is_another_gene :
+  forall W ops i G s s',
+    valid_name s -> valid_name s' -> s <> s' ->
+    nth_error W i = Some G ->
+    (forall o n, In o (ops_for i ops) -> addresses o n = true -> n = name_code s') ->
+    exists G', nth_error (run W ops) i = Some G' /\
+               lookup (tbl G') (name_code s) = lookup (tbl G) (name_code s) /\
+               stored G' (name_code s) = stored G (name_code s).
+Proof. exact other_spelling_untouched_proof. Qed.
+Print Assumptions c20_other_spelling_is_another_gene.
 
 (* ---- the wf hypothesis is an invariant of every reachable lineage ------- *)
 
